@@ -1,7 +1,11 @@
 import EpgVerif.Props.C13
+import EpgVerif.Tie.ShiftSites
 open EpgVerif.Props.C13
 #print axioms inv_step
 #print axioms inv_run
 #print axioms trunc_drops_beyond
 #print axioms truncation_horizon
 #print axioms acquisitions_exact_within_horizon
+#print axioms merge_preserves_sum
+#print axioms merge_error_bound
+#print axioms EpgVerif.Tie.ShiftSites.sites_as_modelled
